@@ -314,6 +314,34 @@ def check_no_truthiness(ctx, fn, param, rule='T19t', why=''):
                loc=fn.loc, nontrivial=n_id > 0)
 
 
+def check_default_returned(ctx, prog, fn, recv=None, rule='T14.get', param='default'):
+    """get(key, default) / setdefault(key, default): on every normal path the function returns either what a lookup in the
+    container produced, or the caller's `default` -- never a constant of its own (an implicit None on the miss path answers
+    get(k, 0) with None)."""
+    if param not in fn.params:
+        raise AnalysisError('anchor vanished: parameter %s of %s' % (param, fn.fq))
+    w, paths = paths_of(prog, fn, recv=recv, model=TryRaises(prog, fn))
+    bad = None
+    n = 0
+    for p in paths:
+        if p.kind != 'return':
+            continue
+        n += 1
+        v = p.outcome[1]
+        e = w.expand(v) if v is not None else None
+        ok = e is not None and not (isinstance(e, ast.Constant)) and (
+            txt(e) == param or any(isinstance(x, (ast.Subscript, ast.Call)) for x in ast.walk(e)) or
+            (isinstance(e, ast.Name) and e.id.startswith('$')))
+        if not ok and bad is None:
+            bad = (p, txt(e) if e is not None else 'None (implicit)')
+    if n == 0:
+        ctx.unknown(rule, fn.fq, 'no normal return path', fn.loc)
+        return
+    ctx.ob(rule, fn.fq, 'every answer is the looked-up value or the caller\'s `%s` (never a constant of the function\'s own)' % param,
+           bad is None, loc=fn.loc, detail='returns %s' % bad[1] if bad else '%d return paths' % n,
+           path=bad[0].describe() if bad else None)
+
+
 def check_get_none_presence(ctx, fn, rule='T26', receivers=None):
     """`X.get(k)` with no (or a None) default cannot tell "absent" from "present with value None".
     Using its result in a comparison / None-test to decide presence or equality is wrong whenever
